@@ -16,10 +16,9 @@
      missing_paths e f t d sc   the scopes of the absent required fields (own or inherited) at every position reached through
                                 present values; MissingProofs.missing_spec is its image under scope_string
      reported e wc excl ig f t d sc  = map scope_string (filter (fun p => negb (excluded_at wc excl ig p)) (missing_paths e f t d sc))
-     decode_specX               MissingProofs.decode_spec with the default literals decoded under the same spec, as the MODEL does
-                                (the generated Go code uses NewJsonReader, i.e. no exclusions: see [c07d_default_literal_artefact]);
-                                equal to decode_spec under [lits_agree], which holds when no default is declared on a record / map /
-                                union type ([defaults_objfree])
+   The decoded value is MissingProofs.decode_spec, the SAME function of the document as without exclusions: the generated code reads
+   the default literals with NewJsonReader (no exclusions, scopeToIgnore 0) and so does the model (Decode.v); the spec enters only
+   through the raising flag (a record at the start of the input that raises does not fill its own defaults).
    Hypotheses as in C06: wf_schema e; well_shaped e pF fuel t d (carries the depth bound); the two scope hypotheses of decJ_exact
    (the lone empty key at the outermost level).  On such documents the ONLY possible error is the excluded-field error. *)
 From Coq Require Import List Bool Arith ZArith NArith Permutation.
@@ -82,7 +81,7 @@ Theorem c07d_decJ_exact : forall e wc excl ignore parseF, wf_schema e ->
     | None =>
         exists tr',
           decJ e wc excl ignore parseF fuel top t d tr
-          = Ok (decode_specX e wc excl ignore parseF fuel (raisesX e wc excl ignore fuel top t d tr) t d, tr') /\
+          = Ok (decode_spec e wc ignore parseF fuel (raisesX e wc excl ignore fuel top t d tr) t d, tr') /\
           t_scope tr' = t_scope tr /\
           Permutation (t_missing tr') (t_missing tr ++ reported e wc excl ignore fuel t d (t_scope tr))
     end.
@@ -142,8 +141,8 @@ Theorem c07d_missing_exact : forall e wc excl ignore parseF, wf_schema e ->
     | Some p => DErr (EExcluded (scope_string p))
     | None =>
         match reported e wc excl ignore fuel t jd [] with
-        | [] => DOk (decode_specX e wc excl ignore parseF fuel false t jd)
-        | ms => DMissing (sort_bytes ms) (decode_specX e wc excl ignore parseF fuel true t jd)
+        | [] => DOk (decode_spec e wc ignore parseF fuel false t jd)
+        | ms => DMissing (sort_bytes ms) (decode_spec e wc ignore parseF fuel true t jd)
         end
     end.
 Proof. exact DecodeExclProofs.missing_exactX. Qed.
@@ -155,12 +154,12 @@ Theorem c07d_top_non_record : forall e wc excl ignore parseF, wf_schema e ->
     decode_json e wc excl ignore parseF fuel t data =
     match first_excluded e (excluded_at wc excl ignore) fuel t jd [] with
     | Some p => DErr (EExcluded (scope_string p))
-    | None => DOk (decode_specX e wc excl ignore parseF fuel (negb (is_nilb (reported e wc excl ignore fuel t jd []))) t jd)
+    | None => DOk (decode_spec e wc ignore parseF fuel (negb (is_nilb (reported e wc excl ignore fuel t jd []))) t jd)
     end.
 Proof. exact DecodeExclProofs.top_non_recordX. Qed.
 
-(* D2 in the vocabulary of C06: the SAME value function as without exclusions (MissingProofs.decode_spec), the filtered report *)
-Theorem c07d_missing_exact_spec : forall e wc excl ignore parseF, wf_schema e -> lits_agree e wc excl ignore parseF ->
+(* D2 with the filter written out *)
+Theorem c07d_missing_exact_spec : forall e wc excl ignore parseF, wf_schema e ->
   forall fuel t data jd,
     is_record e t = true -> top_ok data jd -> well_shaped e parseF fuel t jd ->
     (forall p, ~ carries e (excluded_at wc excl ignore) t jd [] p) ->
@@ -171,22 +170,21 @@ Theorem c07d_missing_exact_spec : forall e wc excl ignore parseF, wf_schema e ->
     end.
 Proof. exact DecodeExclProofs.missing_exactX_spec. Qed.
 
-(* ---- the value: the spec enters only through the raising flag (and, in the model only, through the default literals) ---- *)
-Theorem c07d_decode_specX_eq : forall e wc excl ignore parseF, lits_agree e wc excl ignore parseF ->
-  forall fuel r t d, decode_specX e wc excl ignore parseF fuel r t d = decode_spec e wc ignore parseF fuel r t d.
-Proof. exact DecodeExclProofs.decode_specX_eq. Qed.
-
-Theorem c07d_defaults_objfree_lits_agree : forall e wc excl ignore parseF,
-  defaults_objfree e -> lits_agree e wc excl ignore parseF.
-Proof. exact DecodeExclProofs.defaults_objfree_lits_agree. Qed.
-
-Theorem c07d_value_independent_partial : forall e wc excl ignore parseF, wf_schema e -> lits_agree e wc excl ignore parseF ->
+(* ---- the value: the spec enters only through the raising flag ---- *)
+Theorem c07d_value_independent_partial : forall e wc excl ignore parseF, wf_schema e ->
   forall fuel t data jd,
     is_record e t = true -> top_ok data jd -> well_shaped e parseF fuel t jd ->
     (forall p, ~ carries e (excluded_at wc excl ignore) t jd [] p) ->
     (reported e wc excl ignore fuel t jd [] = [] <-> missing_spec e fuel t jd [] = []) ->
     value_of (decode_json e wc excl ignore parseF fuel t data) = value_of (decode_json e wc ps_empty ignore parseF fuel t data).
 Proof. exact DecodeExclProofs.value_independent_of_excl_partial. Qed.
+
+(* below the top level nothing raises: the value under ANY spec is the value without exclusions *)
+Theorem c07d_nested_value_independent : forall e wc excl ignore parseF, wf_schema e ->
+  forall fuel t d tr v tr',
+    well_shaped e parseF fuel t d -> t_scope tr <> [SKey []] -> (t_scope tr = [] -> keys_nonempty (entries_of d)) ->
+    decJ e wc excl ignore parseF fuel false t d tr = Ok (v, tr') -> v = decode_spec e wc ignore parseF fuel false t d.
+Proof. exact DecodeExclProofs.nested_value_independent_of_excl. Qed.
 
 (* "exclusion never changes the decoded value" is false: when the only missing required field is excluded the record no longer
    raises and fills its own defaults (genuine behaviour) *)
@@ -224,7 +222,7 @@ Theorem c07d_only_excluded_missing_decodes : forall e wc excl ignore parseF, wf_
     is_record e t = true -> top_ok data jd -> well_shaped e parseF fuel t jd ->
     (forall p, ~ carries e (excluded_at wc excl ignore) t jd [] p) ->
     (forall p, In p (missing_paths e fuel t jd []) -> excluded_at wc excl ignore p = true) ->
-    decode_json e wc excl ignore parseF fuel t data = DOk (decode_specX e wc excl ignore parseF fuel false t jd).
+    decode_json e wc excl ignore parseF fuel t data = DOk (decode_spec e wc ignore parseF fuel false t jd).
 Proof. exact DecodeExclProofs.only_excluded_missing_decodes. Qed.
 
 (* ---- excl = ps_empty: Props/C06.v decJ_exact / missing_exact are instances ---- *)
@@ -375,17 +373,11 @@ Theorem c07d_ror2_tree_exact : forall e wc excl ignore parseF unesc empty_marker
     | None =>
         exists tr',
           decTj e wc excl ignore parseF unesc empty_marker fuel top t d tr
-          = Ok (decode_spec_tX e wc excl ignore parseF unesc empty_marker fuel (raisesX e wc excl ignore fuel top t d tr) t d, tr') /\
+          = Ok (decode_spec_t e wc ignore parseF unesc empty_marker fuel (raisesX e wc excl ignore fuel top t d tr) t d, tr') /\
           t_scope tr' = t_scope tr /\
           Permutation (t_missing tr') (t_missing tr ++ reported e wc excl ignore fuel t d (t_scope tr))
     end.
 Proof. exact DecodeExclProofs.decTj_exactX. Qed.
-
-Theorem c07d_ror2_value_eq : forall e wc excl ignore parseF unesc empty_marker, lits_agree e wc excl ignore parseF ->
-  forall fuel r t d,
-    decode_spec_tX e wc excl ignore parseF unesc empty_marker fuel r t d
-    = decode_spec_t e wc ignore parseF unesc empty_marker fuel r t d.
-Proof. exact DecodeExclProofs.decode_spec_tX_eq. Qed.
 
 (* the cursor-level reader at any position (c = "not at position 0", rest = what follows the rendering) *)
 Theorem c07d_decR_exact : forall e wc excl ignore parseF fl, wf_schema e ->
@@ -398,7 +390,7 @@ Theorem c07d_decR_exact : forall e wc excl ignore parseF fl, wf_schema e ->
     | None =>
         exists tr',
           decR e wc excl ignore parseF (UN fl) EM LP qr fuel t (cur c (render_r fl d ++ rest) tr)
-          = Ok (ror2_valueX e wc excl ignore parseF fl fuel (raisesX e wc excl ignore fuel (negb c && negb qr) t (j_of_r d) tr) t d,
+          = Ok (ror2_value e wc ignore parseF fl fuel (raisesX e wc excl ignore fuel (negb c && negb qr) t (j_of_r d) tr) t d,
                 cur true rest tr') /\
           t_scope tr' = t_scope tr /\
           Permutation (t_missing tr') (t_missing tr ++ reported e wc excl ignore fuel t (j_of_r d) (t_scope tr))
@@ -422,7 +414,7 @@ Theorem c07d_ror2_decode_exact : forall e wc excl ignore parseF fl, wf_schema e 
     | Some p => DErr (EExcluded (scope_string p))
     | None =>
         let ms := reported e wc excl ignore fuel t (j_of_r d) (sc_of qp) in
-        let v := ror2_valueX e wc excl ignore parseF fl fuel (negb qr && negb (is_nilb ms)) t d in
+        let v := ror2_value e wc ignore parseF fl fuel (negb qr && negb (is_nilb ms)) t d in
         match ms with
         | [] => DOk v
         | _ => if top_raises e qp t then DMissing (sort_bytes ms) v else DOk v
@@ -438,8 +430,8 @@ Theorem c07d_ror2_missing_exact : forall e wc excl ignore parseF fl, wf_schema e
     | Some p => DErr (EExcluded (scope_string p))
     | None =>
         match reported e wc excl ignore fuel t (j_of_r d) [] with
-        | [] => DOk (ror2_valueX e wc excl ignore parseF fl fuel false t d)
-        | ms => DMissing (sort_bytes ms) (ror2_valueX e wc excl ignore parseF fl fuel true t d)
+        | [] => DOk (ror2_value e wc ignore parseF fl fuel false t d)
+        | ms => DMissing (sort_bytes ms) (ror2_value e wc ignore parseF fl fuel true t d)
         end
     end.
 Proof. exact DecodeExclProofs.ror2_missing_exactX. Qed.
@@ -461,7 +453,7 @@ Theorem c07d_any_exact : forall e wc excl ignore parseF unspec, wf_schema e -> p
     | None =>
         exists tr',
           decA e wc excl ignore parseF unspec fuel top t (of_jdoc parseF d) tr
-          = Ok (decode_specX e wc excl ignore parseF fuel (raisesX e wc excl ignore fuel top t d tr) t d, tr') /\
+          = Ok (decode_spec e wc ignore parseF fuel (raisesX e wc excl ignore fuel top t d tr) t d, tr') /\
           t_scope tr' = t_scope tr /\
           Permutation (t_missing tr') (t_missing tr ++ reported e wc excl ignore fuel t d (t_scope tr))
     end.
@@ -475,8 +467,8 @@ Theorem c07d_any_missing_exact : forall e wc excl ignore parseF unspec, wf_schem
     | Some p => DErr (EExcluded (scope_string p))
     | None =>
         match reported e wc excl ignore fuel t jd [] with
-        | [] => DOk (decode_specX e wc excl ignore parseF fuel false t jd)
-        | ms => DMissing (sort_bytes ms) (decode_specX e wc excl ignore parseF fuel true t jd)
+        | [] => DOk (decode_spec e wc ignore parseF fuel false t jd)
+        | ms => DMissing (sort_bytes ms) (decode_spec e wc ignore parseF fuel true t jd)
         end
     end.
 Proof. exact DecodeExclProofs.any_missing_exactX. Qed.
@@ -510,13 +502,14 @@ Theorem c07d_raising_flag_witness :
   decode_json c06_env c06_star ps_empty 0 c06_pf 8 (TRef 0) (c06_b "{}") = DMissing [c06_b "a"] (VRec [] [Some (VInt 0); None; None]).
 Proof. exact DecodeExclProofs.raising_flag_witness. Qed.
 
-(* MODEL ARTEFACT: T { r : R = {"x":1} }, R { x : int? }, spec {x}: the model drops the default (it decodes the literal under the
-   spec), the generated Go code keeps it (NewJsonReader has no exclusions) *)
-Theorem c07d_default_literal_artefact :
-  decode_json dx_env_lit c06_star (dx_ps ["x"]) 0 c06_pf 8 (TRef 1) (c06_b "{}") = DOk (VRec [] [None]) /\
+(* T { r : R = {"x":1} }, R { x : int? }: the spec never reaches a default literal (it is read with NewJsonReader); it does reach the
+   same member when the document carries it *)
+Theorem c07d_default_literal_unaffected :
+  decode_json dx_env_lit c06_star (dx_ps ["x"]) 0 c06_pf 8 (TRef 1) (c06_b "{}") = DOk (VRec [] [Some (VRec [] [Some (VInt 1)])]) /\
   decode_json dx_env_lit c06_star ps_empty 0 c06_pf 8 (TRef 1) (c06_b "{}") = DOk (VRec [] [Some (VRec [] [Some (VInt 1)])]) /\
-  ~ lits_agree dx_env_lit c06_star (dx_ps ["x"]) 0 c06_pf.
-Proof. exact DecodeExclProofs.default_literal_artefact_witness. Qed.
+  decode_json dx_env_lit c06_star (dx_ps ["r/x"]) 0 c06_pf 8 (TRef 1) (c06_b "{}") = DOk (VRec [] [Some (VRec [] [Some (VInt 1)])]) /\
+  decode_json dx_env_lit c06_star (dx_ps ["r/x"]) 0 c06_pf 8 (TRef 1) (c06_b "{""r"":{""x"":2}}") = DErr (EExcluded (c06_b "r.x")).
+Proof. exact DecodeExclProofs.default_literal_unaffected_witness. Qed.
 
 Theorem c07d_order_error_witness :
   decJ c06_env c06_star (dx_ps ["b"; "zz"]) 0 c06_pf 8 true (TRef 0) dx_d1 tracker0 = Err (EExcluded (c06_b "b")) /\
@@ -566,8 +559,7 @@ Example c07d_nonvacuous :
   (exists v, decode_json c06_env c06_star dx_spec 0 c06_pf 8 (TRef 1) (c06_b dx_text) = DMissing (List.map c06_b ["a"; "m.k.a"]%list) v /\
              decode_json c06_env c06_star ps_empty 0 c06_pf 8 (TRef 1) (c06_b dx_text)
              = DMissing (List.map c06_b ["a"; "l[0].a"; "l[1].a"; "m.k.a"; "x"]%list) v) /\
-  decode_json c06_env c06_star dx_spec 0 c06_pf 8 (TRef 1) (c06_b dx_text_bad) = DErr (EExcluded (c06_b "l[1].a")) /\
-  lits_agree c06_env c06_star dx_spec 0 c06_pf.
+  decode_json c06_env c06_star dx_spec 0 c06_pf 8 (TRef 1) (c06_b dx_text_bad) = DErr (EExcluded (c06_b "l[1].a")).
 Proof. exact DecodeExclProofs.dx_nonvacuous. Qed.
 
 (* the same content as ROR2 text (l:List((c:3),()),b:s,m:(k:())): NewRor2Reader, and the reader of query parameter p (scope [p],
@@ -606,9 +598,8 @@ Print Assumptions c07d_decode_rejects_iff.
 Print Assumptions c07d_missing_exact.
 Print Assumptions c07d_top_non_record.
 Print Assumptions c07d_missing_exact_spec.
-Print Assumptions c07d_decode_specX_eq.
-Print Assumptions c07d_defaults_objfree_lits_agree.
 Print Assumptions c07d_value_independent_partial.
+Print Assumptions c07d_nested_value_independent.
 Print Assumptions c07d_value_independent_full_refuted.
 Print Assumptions c07d_reported_iff.
 Print Assumptions c07d_excluded_required_absent_not_reported.
@@ -632,7 +623,6 @@ Print Assumptions c07d_unknown_fields_skipped_full_refuted.
 Print Assumptions c07d_array_item_rejected_full_refuted.
 Print Assumptions c07d_array_item_rejected_partial.
 Print Assumptions c07d_ror2_tree_exact.
-Print Assumptions c07d_ror2_value_eq.
 Print Assumptions c07d_decR_exact.
 Print Assumptions c07d_decR_rejects_iff.
 Print Assumptions c07d_ror2_decode_exact.
@@ -643,7 +633,7 @@ Print Assumptions c07d_any_missing_exact.
 Print Assumptions c07d_any_rejects_iff.
 Print Assumptions c07d_array_item_witness.
 Print Assumptions c07d_raising_flag_witness.
-Print Assumptions c07d_default_literal_artefact.
+Print Assumptions c07d_default_literal_unaffected.
 Print Assumptions c07d_order_error_witness.
 Print Assumptions c07d_unknown_excluded_witness.
 Print Assumptions c07d_directive_extension_witness.
